@@ -5,6 +5,8 @@
 package main
 
 import (
+	"bytes"
+	"errors"
 	"fmt"
 	"log/slog"
 	"sort"
@@ -23,7 +25,16 @@ type sink struct {
 	sched  bool
 }
 
+var errSink = errors.New("destination refuses this record")
+
 func (s *sink) Write(p []byte) (int, error) {
+	if bytes.Contains(p, []byte("REFUSED")) {
+		// the destination fails for this one record (and does not keep it); later records must be unaffected
+		if s.sched {
+			vsched.Event("write-refused")
+		}
+		return 0, errSink
+	}
 	if s.sched {
 		vsched.Event("write-begin")
 		if s.busy {
@@ -59,9 +70,9 @@ var handlerNames = []string{"nano", "text", "json"}
 
 func big(tag string) string { return "big-" + tag + "-" + strings.Repeat("x", 20<<10) }
 
-const nOpKinds = 6
+const nOpKinds = 6 // kinds offered to the free choice; kind 6 (a record the destination refuses) is used in fixed plans only
 
-var opNames = []string{"root.Info", "child.Warn", "derive+Error", "below-threshold", "20KiB", "root.Infof"}
+var opNames = []string{"root.Info", "child.Warn", "derive+Error", "below-threshold", "20KiB", "root.Infof", "refused-by-destination"}
 
 // doOp is the single call site of every logging operation (so that source positions agree
 // between the concurrent run and the run-alone reference).
@@ -79,6 +90,8 @@ func doOp(root, child *logger.Logger, kind int, tag string) {
 		root.Info(big(tag))
 	case 5:
 		root.Infof("f-%s", tag)
+	case 6:
+		root.Info("REFUSED-"+tag, "k", tag)
 	}
 }
 
@@ -212,6 +225,8 @@ func main() {
 				Quick: q22, Thorough: PS(16, 0, 1, -1), Body: body(scen{h, [][]int{{0, 2}, {1, 4}}}), MinOutcomes: 2},
 			sdrive.Scenario{Name: hn + "-2x2-big-below", Props: []string{"C02"}, About: "20KiB+below-threshold vs derive+root",
 				Quick: q22, Thorough: PS(16, 0, 1, -1), Body: body(scen{h, [][]int{{4, 3}, {2, 0}}}), MinOutcomes: 2},
+			sdrive.Scenario{Name: hn + "-after-write-error", Props: []string{"C02"}, About: "the destination refuses one record (Write returns an error); afterwards two goroutines log concurrently: their lines must be unaffected",
+				Quick: q22, Thorough: PS(16, 0, 1, -1), Body: body(scen{h, [][]int{{6, 0}, {1}}}), MinOutcomes: 2},
 			sdrive.Scenario{Name: hn + "-3x2", Props: []string{"C02"}, About: "three goroutines, two operations each",
 				Quick: q32, Thorough: PS(16, 0, 1, 2, 3, 4), Body: body(scen{h, [][]int{{0, 1}, {2, 5}, {1, 0}}}), MinOutcomes: 2},
 			sdrive.Scenario{Name: hn + "-3x3", Props: []string{"C02"}, About: "three goroutines, three operations each (thorough only beyond bound 1)",
